@@ -323,6 +323,24 @@ func runC08(seed uint64, tier, dir, replay string) error {
 				kinds = append(kinds, "mutated")
 			}
 		}
+		if dec == "igmp3q" || dec == "igmp3gr" {
+			// source counts whose size computation wraps around 16 bits, on data of several lengths
+			for _, cnt := range []int{16381, 16382, 16383, 32768, 49150, 65535} {
+				for _, ln := range []int{12, 16, 24, 64, 300} {
+					c := make([]byte, ln)
+					copy(c, base)
+					if dec == "igmp3q" {
+						c[0] = 0x11
+						c[10], c[11] = byte(cnt>>8), byte(cnt)
+					} else {
+						c[1] = byte(cnt) // aux data length
+						c[2], c[3] = byte(cnt>>8), byte(cnt)
+					}
+					inputs = append(inputs, c)
+					kinds = append(kinds, "count-wrap")
+				}
+			}
+		}
 		if dec == "eth" {
 			for _, nb := range v6Extremes(tier == "thorough") {
 				inputs = append(inputs, nb.b)
@@ -358,7 +376,7 @@ func runC08(seed uint64, tier, dir, replay string) error {
 		o.Meta["direct_violations"] = direct
 	}
 	o.Meta["outcomes"] = outcomes
-	o.Meta["rule"] = "per decoder (Ethernet+VLAN, ARP, IPv4, IPv6, ICMP, UDP, TCP, hop-by-hop, routing, fragment, VLAN, IPv6 option, IGMPv1/2, IGMPv3 query / group record / report, DHCP, DHCP options, LLDP and its three TLVs): truncation of a valid packet at every offset (<=120), every one of the first 24 bytes set to 0/1/0xfe/0xff, random valid packets and structure-aware mutations (truncate, boundary bytes, flips, extension); Ethernet/IPv6 packets whose extension headers carry Hdr Ext Len 0/1/31/254/255 and are long enough to hold them; each decode runs in a worker subprocess under a 3 s wall-clock limit and a 1 GiB heap limit; distinct by decoder x input kind x outcome x size bucket"
+	o.Meta["rule"] = "per decoder (Ethernet+VLAN, ARP, IPv4, IPv6, ICMP, UDP, TCP, hop-by-hop, routing, fragment, VLAN, IPv6 option, IGMPv1/2, IGMPv3 query / group record / report, DHCP, DHCP options, LLDP and its three TLVs): truncation of a valid packet at every offset (<=120), every one of the first 24 bytes set to 0/1/0xfe/0xff, random valid packets and structure-aware mutations (truncate, boundary bytes, flips, extension); Ethernet/IPv6 packets whose extension headers carry Hdr Ext Len 0/1/31/254/255 and are long enough to hold them; IGMPv3 source / aux counts at the values where 16-bit size arithmetic wraps; each decode runs in a worker subprocess under a 3 s wall-clock limit and a 1 GiB heap limit; distinct by decoder x input kind x outcome x size bucket"
 	return o.Close()
 }
 
